@@ -20,6 +20,8 @@ for tier in ("quick", "thorough"):
             if o.verdict in (PROVED, REFUTED):
                 counts[o.rule] = counts.get(o.rule, 0) + 1
         for r, c in counts.items():
+            if r in ("C16.COST",):      # information only: never required
+                continue
             pins.setdefault(pid, {}).setdefault(r, {})[tier] = c
 json.dump(pins, open(os.path.join(HERE, "pins.json"), "w"), indent=1, sort_keys=True)
 print("pinned", sum(len(v) for v in pins.values()), "rules")
